@@ -95,6 +95,17 @@ theorem long_bracket_columns_exact :
   decide +kernel
 #print axioms long_bracket_columns_exact
 
+/-- the model's token location rule IS the Go function `tokenLoc` (translated from the source on every run): every
+    Loc the lexer hands out — GetNowTokenLoc, GetHeardTokenLoc, GetPreTokenLoc — goes through it -/
+def toGTok (t : Token) : Gen.GTok :=
+  { line := t.line, lineStartPos := t.lineStart, rangeFromPos := t.from_, rangeToPos := t.to,
+    startLine := t.sline, startLineStartPos := t.slineStart }
+
+theorem tokenLoc_is_go (t : Token) : toG (tokenLoc t) = Gen.tokenLoc (toGTok t) := by
+  unfold tokenLoc Gen.tokenLoc toGTok toG
+  by_cases h : t.lineStart > t.from_ <;> simp [h]
+#print axioms tokenLoc_is_go
+
 /-- the location rule of a token (`tokenLoc`, since the repair c8b21cc): under the bookkeeping facts the lexer
     maintains — the token begins on or before the line it ends on, at or behind the start of that line; it ends at
     or behind the start of its last line; a one-line token has from ≤ to; two positions on one line share its line
